@@ -194,6 +194,18 @@ class ConvFn:
         return '<conv%d>' % self.tag
 
 
+class LazyRows:
+    """long repr, and a __len__ that fails the way a lazily evaluated collection does"""
+    def __init__(self, tag):
+        self.tag = tag
+
+    def __len__(self):
+        raise RuntimeError('row count is not known before the query ran')
+
+    def __repr__(self):
+        return '<LazyRows %d %s>' % (self.tag, 'pending ' * 30)
+
+
 class BoomFn:
     def __init__(self, tag):
         self.tag = tag
@@ -217,7 +229,8 @@ def make_target(style):
 
 
 FAIL_KINDS = ['missing-path', 'failing-T', 'raising-callable', 'match-type', 'check', 'exhausted-coalesce', 'missing-attr',
-              'exhausted-coalesce-skip', 'list-segment', 'raises-after-recovered-child', 'exhausted-coalesce-of-T']
+              'exhausted-coalesce-skip', 'list-segment', 'raises-after-recovered-child', 'exhausted-coalesce-of-T',
+              'long-target-without-a-usable-len']
 
 
 class SpecGen:
@@ -257,6 +270,11 @@ class SpecGen:
                                        lambda: Coalesce('zz%d' % n, default=3.5)])()
                 return self.rng.choice([lambda: Check(rec, type=complex), lambda: Not(rec), lambda: Check(rec, equal_to=-n),
                                         lambda: Flatten(rec)])()
+            if k == 'long-target-without-a-usable-len':
+                # the failing step receives a value whose repr is long (so it is truncated) and whose len() raises something
+                # other than TypeError: an astronomically long range, a lazy collection
+                obj = self.rng.choice([lambda: range(10 ** 120), lambda: LazyRows(n)])()
+                return (Val(obj), T.zz_attr if self.rng.random() < 0.5 else 'zz%d' % n)
             if k == 'exhausted-coalesce-of-T':
                 # all (or all but one) alternatives are bare T expressions
                 alts = [T['yy%d' % n], T.zz_attr, T['a']['xx%d' % n]]
@@ -571,7 +589,12 @@ def one_case(col, rng, tracer, width):
         col.count('error_messages_checked')
         if branching:
             col.count('with_branching_ancestor')
-        msg = str(got.exc)
+        rendered = call(str, got.exc)
+        if not rendered.ok:
+            col.violation('C05/message-cannot-be-rendered:' + type(rendered.exc).__name__,
+                          '%s: str() of the error raised %r' % (desc, rendered.exc), {'spec': desc})
+            continue
+        msg = rendered.value
         ok = check_message(col, msg, root, target, desc, None, width)
         if ok is True and col.want_sample('trace-%s' % kind):
             col.sample({'spec': desc, 'width': width, 'failing_spec': short(fmt_full(anc[-1].spec), 80), 'ancestors': len(anc),
